@@ -68,8 +68,10 @@ def gen_history(rng, cfg, docgen, ntx=(1, 5), maxops=6, p_cancel=0.1,
                         continue
                     used_keys.add(key)
                     ops.append(["update", docgen.doc(key=key, fields_subset=list(names))])
-                else:
+                elif rng.random() < 0.7:
                     ops.append(["del_term", "k", u"k%03d" % rng.randrange(docgen.nkeys)])
+                else:
+                    ops.append(["del_uid", rng.randint(1, max(1, docgen.next_uid - 1)), "index"])
                 continue
             if c < 1 - p_delete - 0.15:
                 if rng.random() < 0.15:
